@@ -230,7 +230,30 @@ pub fn gen(rng: &mut Rng, n: usize, sink: &mut Sink, focus: &str) {
             } else if r < w_flow + w_roles {
                 let x = user(rng.below(6) as u8);
                 let y = user(rng.below(6) as u8);
-                let k = rng.below(11);
+                let k = rng.below(12);
+                if k == 11 {
+                    // directed: an account holding SEVERAL roles proposes one of them; the recipient tries to accept
+                    // another one of the proposer's roles (a proposal is for exactly the proposed roles), then the right one
+                    let both: Vec<u8> = (0..6u8).filter(|i| roles[*i as usize] & 3 == 3).collect();
+                    if let Some(i) = both.first().copied() {
+                        let from = user(i);
+                        let to = user((i + 1 + rng.below(5) as u8) % 6);
+                        let (prop, wrong, right) = if rng.chance(1, 2) {
+                            ("proposeOperatorship", "acceptMintership", "acceptOperatorship")
+                        } else {
+                            ("proposeMintership", "acceptOperatorship", "acceptMintership")
+                        };
+                        sink.exec(&format!("tx {} {} {} 0 - {}", hex::encode(&from), hex::encode(&tm), prop, args(&[to.clone()])));
+                        sink.exec(&format!("tx {} {} {} 0 - {}", hex::encode(&to), hex::encode(&tm), wrong, args(&[from.clone()])));
+                        sink.exec(&format!("query {} getAccountRoles {}", hex::encode(&tm), args(&[to.clone()])));
+                        if rng.chance(1, 2) {
+                            sink.exec(&format!("tx {} {} {} 0 - {}", hex::encode(&to), hex::encode(&tm), right, args(&[from.clone()])));
+                        }
+                        sink.exec(&format!("query {} getAccountRoles {}", hex::encode(&tm), args(&[from.clone()])));
+                        refresh(sink, &mut roles);
+                        continue;
+                    }
+                }
                 let (caller, func, a): (Vec<u8>, &str, Vec<Vec<u8>>) = match k {
                     0 => (holder(rng, &roles, 2), "addFlowLimiter", vec![x.clone()]),
                     1 => (holder(rng, &roles, 2), "removeFlowLimiter", vec![x.clone()]),
